@@ -240,11 +240,7 @@ func c18Value(r gen.R, k fkind, f lfield) (reflect.Value, rm.Val) {
 		h, mi, s := t.Clock()
 		return wrap(types.DateTime(t), rm.DateTimeVal(y, int(m), d, h, mi, s))
 	case "sysdate", "*sysdate":
-		d := r.Date()
-		d.Y = 2000 + r.Pick(69)
-		if d.D > rm.DaysIn(d.Y, d.Mo) {
-			d.D = rm.DaysIn(d.Y, d.Mo)
-		}
+		d := r.SysDate()
 		return wrap(types.SystemDate(time.Date(d.Y, time.Month(d.Mo), d.D, 0, 0, 0, 0, time.UTC)), rm.Val{K: rm.SysDate, Y: d.Y, Mo: d.Mo, D: d.D})
 	case "systime", "*systime":
 		h, mi, s := r.Pick(24), r.Pick(60), r.Pick(60)
